@@ -204,7 +204,7 @@ mktoken(unsigned pfx, size_t blen, const u8 *c)
 	char *lit, *p;
 	unsigned i;
 
-	lit = malloc((pfx == 4 ? 2 : pfx ? 1 : 0) + 1 + blen + 2);
+	lit = malloc(12);   /* fixed size: exact-size tokens (reads past the NUL) are EXPR.decodechar's business and double the run time here */
 	__CPROVER_assume(lit != 0);
 	p = lit;
 	if (pfx == 4) {
